@@ -34,6 +34,8 @@ def bounds(tier):
 
 def _skeletons(tier):
     sk = [([(0, 1)], 2), ([(0, 1), (1, 2)], 3), ([(1, 2), (0, 1)], 3), ([(1, 0), (1, 2)], 3)]
+    # a 4-node listing whose topological permutation is NOT its own inverse (using the inverse permutation instead goes unnoticed on <= 3 nodes)
+    sk += [([(0, 2), (0, 3), (1, 0)], 4)]
     if tier == "thorough":
         sk += [([(0, 1), (1, 2), (1, 3)], 4), ([(2, 3), (0, 1), (1, 2)], 4)]
     return sk
@@ -43,6 +45,8 @@ def configs(tier, seed):
     out = []
     for edges, n in _skeletons(tier):
         counts_list = {2: [(1, 1), (2, 2), (2, 1), (0, 2)], 3: [(1, 1, 1), (2, 2, 1), (1, 2, 2), (2, 0, 1), (2, 2, 2)], 4: [(1, 1, 1, 1), (2, 1, 2, 1)]}[n]
+        if tier == "quick" and n == 4:
+            counts_list = [(1, 1, 1, 1)]
         if tier == "quick" and n == 3:
             counts_list = [(1, 1, 1), (2, 2, 1), (2, 0, 1)] + ([(2, 2, 2)] if edges == [(0, 1), (1, 2)] else [])
         for counts in counts_list:
